@@ -29,8 +29,9 @@ def judge(ctx, cases):
             lines = open(trace, "rb").readlines()
         case = json.loads(lines[b["i"] - 1])
         for api in b["as"]:
-            rec = {"api": api, "kind": b["kind"], "witness": jsonfam.to_text(case["b"]),
-                   "case": {"b": case["b"]}, "detail": b.get("m") or None}
+            pad = case.get("pad", 0)
+            rec = {"api": api, "kind": b["kind"], "witness": jsonfam.padded_text(case),
+                   "case": {"b": case["b"], "pad": pad} if pad else {"b": case["b"]}, "detail": b.get("m") or None}
             if b["kind"] == "rejects-valid":
                 need_probe.append(rec)
             else:
@@ -39,7 +40,7 @@ def judge(ctx, cases):
     # rejects-valid: locate by completion probing, shortest witnesses first, bounded work
     need_probe.sort(key=lambda r: len(r["case"]["b"]))
     todo = [r for r in need_probe if len(r["case"]["b"]) <= 400][:3000]
-    loci = jsonfam.probe_loci(ctx, [(r["api"], r["case"]["b"]) for r in todo])
+    loci = jsonfam.probe_loci(ctx, [(r["api"], (r["case"].get("pad", 0), r["case"]["b"])) for r in todo])
     for r, l in zip(todo, loci):
         r["locus"] = jsonfam.locus_str(l)
     for r in need_probe:
